@@ -566,6 +566,21 @@ def _dump_float(value: float) -> Union[float, str]:
     return value
 
 
+def _equal_or_both_nan(a: Any, b: Any) -> bool:
+    """Equality that treats nan as equal to nan, also inside repeated and map fields."""
+    if isinstance(a, float) and isinstance(b, float):
+        return a == b or (math.isnan(a) and math.isnan(b))
+    if isinstance(a, list) and isinstance(b, list):
+        return len(a) == len(b) and all(
+            _equal_or_both_nan(x, y) for x, y in zip(a, b)
+        )
+    if isinstance(a, dict) and isinstance(b, dict):
+        return a.keys() == b.keys() and all(
+            _equal_or_both_nan(a[key], b[key]) for key in a
+        )
+    return a == b
+
+
 def load_varint(stream: "SupportsRead[bytes]") -> Tuple[int, bytes]:
     """
     Load a single varint value from a stream. Returns the value and the raw bytes read.
@@ -805,12 +820,7 @@ class Message(ABC):
                 # We consider two nan values to be the same for the
                 # purposes of comparing messages (otherwise a message
                 # is not equal to itself)
-                if (
-                    isinstance(self_val, float)
-                    and isinstance(other_val, float)
-                    and math.isnan(self_val)
-                    and math.isnan(other_val)
-                ):
+                if _equal_or_both_nan(self_val, other_val):
                     continue
                 else:
                     return False
